@@ -133,13 +133,15 @@ fn classify(case: &Case, obs: &mut Obs) {
     obs.class_if(case.n() >= 1500, "n_ge_1500");
 }
 
-/// Runs linfa on the case and judges everything. `shrinking = true` cases use the signature prefix
-/// `shrink:` so that findings of the shrinking code path never mask the plain solver's obligations.
+/// Runs linfa on the case and judges everything. Cases in which `do_shrinking` ran use grouped
+/// `shrink:` signatures (see `mk_sig`) so that findings of the shrinking code path never mask the plain
+/// solver's obligations; a `shrinking = true` case that stops before the first `do_shrinking` call went
+/// through exactly the plain solver's code and keeps the plain signatures.
 pub fn check(case: &Case, obs: &mut Obs) {
     classify(case, obs);
     let t0 = std::time::Instant::now(); // diagnostics only (C13_DEBUG), never enters a verdict
     let fitted = run::fit(case);
-    if std::env::var("C13_DEBUG").is_ok() && t0.elapsed().as_secs_f64() > 0.7 {
+    if std::env::var("C13_DEBUG").is_ok() && t0.elapsed().as_secs_f64() > 3.0 {
         let disp = match &fitted {
             FitOutcome::Model(e) => e.display.clone(),
             _ => "-".into(),
@@ -388,12 +390,10 @@ fn judge(case: &Case, ex: &Extract, obs: &mut Obs, shrunk: bool) {
             unscaled_hits += 1;
         }
     }
-    let mut linear_nu_unscaled = false;
     if mismatches > 0 {
         ws_ok = false;
         let (i, w, d) = first_bad.unwrap_or((0, 0.0, 0.0));
         if is_nu_linear && unscaled_hits == mismatches {
-            linear_nu_unscaled = true;
             obs.class("nu_svc_linear_hyperplane_unscaled");
             obs.fail(
                 // independent of shrinking: the exact wrong value is recognised
@@ -470,7 +470,6 @@ fn judge(case: &Case, ex: &Extract, obs: &mut Obs, shrunk: bool) {
             }
         }
     }
-    let _ = linear_nu_unscaled;
 
     // ---- (2) feasibility
     let sum: f64 = alpha.iter().sum();
